@@ -187,6 +187,8 @@ ErrorAllowed(t, r) ==
        /\ (cfg.bg \/ \E u \in Threads \ {t} : pend[u].st # "idle" /\ Maint(pend[u].op))
   \/ closing /\ p.op # "close"                                                 \* C10: lost the race with Close
   \/ ~cfg.strict /\ p.op \in {"sync", "compact", "backup", "close"}             \* noted, judged by C15's runs
+  \/ p.op \in {"compact", "sync", "backup"} /\ r.ek = "injected"   \* the harness made a file-system call of the operation fail:
+                                             \* the error is the correct answer; the contents must be untouched (next ReadAll)
   \/ p.op = "close" /\ r.ek = "injected"      \* the harness made a file-system call of Close fail: the process exits,
                                              \* the next event is the image of the directory as this Close left it (C13)
 
